@@ -62,6 +62,10 @@ P = {
   "All programs of <= 2 (quick) / <= 3 (thorough) items over a 28-form dependency syntax alphabet x 6 media types are generated (form choice complete; spelling, quotes, trivia, CRLF, BOM, shebang deviation-bounded), analysed with the real analyser and built into a graph; reported (kind, unescaped specifier, attribute) multisets, byte-exact ranges (independent position mapper) and Dependency::includes over every text position are compared with the renderer's record. Every module source of the spec corpus is checked with the generic range oracle.",
   "Trusted: the renderer's bookkeeping, the independent (line, scalar-value) -> byte mapper. Forms outside the alphabet are only covered through the corpus.",
   "DESIGN.md §4 C08", TECH + "; complete enumeration of short programs over a syntax alphabet (deviation-bounded trivia/spelling) + full corpus"),
+ "C13": (True,
+  "Four exhaustive-within-bound parts: round trip (value and string) of every ModuleInfo the analyser produces over the C08 program space; round trip of ModuleInfo values enumerated directly over per-field alphabets (deviation-bounded from the default value); all 56 moduleGraph1 leading-comment shapes upgraded and compared with analysing the equivalent source; registry packages (5 source files, generated import lists, 3 root import forms, 2 entrypoints) published with and without an embedded module graph and built with cache-probe hit / miss, graphs compared.",
+  "Premise of the statement: the embedded information is produced by this analyser from those sources (the fixture does exactly that).",
+  "DESIGN.md §4 C13", TECH + "; enumeration of values / programs / packages, round-trip and differential oracles"),
 }
 
 ALL = ["C%02d" % i for i in range(1, 21)]
